@@ -215,7 +215,7 @@ Section Gen.
       mdo shuffledSuites <~ shuffledCiphers tb ;;
       (* 2995-3013 *)
       mdo is13 <~ flipM (w_tls13 w) ;;
-      '(vmin, vmax, shuffledSuites) <~
+      mdo (vmin, vmax, shuffledSuites) <~
         (if is13 : bool then
            mdo k <~ intnM 2 ;;
            mdo tls13ciphers <~ shuffleM 0 (t_tls13 tb) ;;
